@@ -912,6 +912,7 @@ type c31Target struct {
 	size int64 // file bytes (0 for directories)
 	file bool
 	unit int64 // chunk size used (for boundary-biased ranges)
+	rep  bool  // repetitive content: the file's DAG repeats a chunk
 }
 
 type c31Gen struct {
@@ -919,6 +920,8 @@ type c31Gen struct {
 	rng     *rand.Rand
 	targets []c31Target
 	nfile   int
+	nrep    int
+	lastRep bool // the file built last has repeated chunks
 }
 
 func (g *c31Gen) file(size int64) (format.Node, int64) {
@@ -930,7 +933,10 @@ func (g *c31Gen) file(size int64) (format.Node, int64) {
 	for size/unit > 20 { // keep the number of blocks per file moderate
 		unit *= 2
 	}
-	if g.rng.Intn(4) == 0 {
+	g.lastRep = false
+	if (g.nrep == 0 || g.rng.Intn(4) == 0) && size >= 2*unit { // at least the first eligible file of a tree
+		g.lastRep = true
+		g.nrep++
 		// repetitive content (think of zero-filled regions): two of every three chunks are the same
 		// chunk, so the file's DAG repeats a block; the per-file filler keeps files distinct
 		for i := range data {
@@ -1014,7 +1020,7 @@ func (g *c31Gen) dir(prefix []string, depth int, n int, maxSize int64) format.No
 			nd, unit := g.file(sz)
 			ents = append(ents, ent{name, nd})
 			prev = &ents[len(ents)-1]
-			g.targets = append(g.targets, c31Target{path: p, c: nd.Cid(), size: sz, file: true, unit: unit})
+			g.targets = append(g.targets, c31Target{path: p, c: nd.Cid(), size: sz, file: true, unit: unit, rep: g.lastRep})
 		}
 	}
 	var nd format.Node
@@ -1112,6 +1118,16 @@ func c31Record(t *testing.T) {
 				continue
 			}
 			rq := g.request(tg)
+			if k == 3 || k == 4 {
+				// the whole of a file with repeated chunks, no duplicates policy stated, through both entry points
+				for _, t2 := range g.targets {
+					if t2.rep {
+						tg, path = t2, t2.path
+						rq = c31Req{Scope: "entity", Dups: "unspec", Via: []string{"api", "http"}[k-3], Star: true}
+						break
+					}
+				}
+			}
 			at, rp := root, tg.path
 			if k%5 == 4 { // the content path is just the target's own CID
 				at, rp, path = tg.c, nil, []string{}
